@@ -49,7 +49,7 @@ class RouteA(HttpWebServerBasePlugin):
     NAME = b'WA'
 
     def routes(self) -> List[Tuple[int, str]]:
-        return [(httpProtocolTypes.HTTP, r'/wa/')]
+        return [(httpProtocolTypes.HTTP, r'/wa/'), (httpProtocolTypes.HTTPS, r'/was/')]    # '/was/' exists behind the TLS front only
 
     def handle_request(self, request: HttpParser) -> None:
         body = self.NAME + b'|' + _rid(request) + b'|' + (request.body or b'')[:8]
